@@ -290,16 +290,18 @@ func c08Run(r *run.Runner, c c08Case) {
 		}
 		// age_value of the stored response after this step: a 304 without Age
 		// legitimately leaves the stored Age field in place (carried over)
+		// (a 304 without Age restarts the age: the Age of an earlier message
+		// belongs to the old request / response times)
 		switch {
-		case st.Kind == "200":
-			carriedAge = 0
-		case st.Age != "":
+		case st.Age != "" && st.Kind == "304":
 			n, _ := strconv.Atoi(st.Age)
 			carriedAge = time.Duration(n) * time.Second
+		default:
+			carriedAge = 0
 		}
 		// the response delay of the validation counts towards the age (RFC 9111 4.2.3)
 		ageBase := carriedAge + vcall.Exit.Sub(vcall.Enter)
-		ageExact := st.Kind == "200" || st.Age != "" || carriedAge == 0
+		ageExact := true
 		validatedAt := vcall.Exit
 		// follow-ups inside the new lifetime
 		for _, f := range st.Follow {
